@@ -123,6 +123,9 @@ func NewTempoSamplesInsertService(opts model.InsertServiceOpts) service.IInsertS
 				logger.Info("invalid request type tempo samples")
 				return 0, nil, fmt.Errorf("invalid request type tempo samples")
 			}
+			if err := checkIdSizes(tempSamples.MTraceId, tempSamples.MSpanId); err != nil {
+				return 0, res, err
+			}
 			acquirer := (&tempoSamplesAcquirer{}).fromIFace(res)
 			s1 := res[0].Size()
 			(&service.FixedStrAdaptor{ColFixedStr: acquirer.traceId.Data}).AppendArr(tempSamples.MTraceId)
@@ -234,6 +237,9 @@ func NewTempoTagsInsertService(opts model.InsertServiceOpts) service.IInsertServ
 				return 0, nil, fmt.Errorf("invalid request tempo tags")
 			}
 
+			if err := checkIdSizes(tempTags.MTraceId, tempTags.MSpanId); err != nil {
+				return 0, res, err
+			}
 			acquirer := (&tempoTagsAcquirer{}).fromIFace(res)
 			s1 := res[0].Size()
 			(&service.FixedStrAdaptor{ColFixedStr: acquirer.traceId.Data}).AppendArr(tempTags.MTraceId)
@@ -246,6 +252,22 @@ func NewTempoTagsInsertService(opts model.InsertServiceOpts) service.IInsertServ
 			return res[0].Size() - s1, acquirer.toIFace(), nil
 		},
 	}
+}
+
+// checkIdSizes rejects a request before anything is appended: ColFixedStr.Append panics on a value of the
+// wrong size, which would leave the shared columns with different row counts.
+func checkIdSizes(traceIds [][]byte, spanIds [][]byte) error {
+	for _, id := range traceIds {
+		if len(id) != 16 {
+			return fmt.Errorf("invalid trace id size %d", len(id))
+		}
+	}
+	for _, id := range spanIds {
+		if len(id) != 8 {
+			return fmt.Errorf("invalid span id size %d", len(id))
+		}
+	}
+	return nil
 }
 
 func fastFill[T uint64 | string](val T, len int) []T {
